@@ -270,6 +270,7 @@ class Gen:
         self.counter = 0
         self.in_switch = 0
         self.features = set()
+        self.leaked = []        # declarations of blocks that have ended: a use of one of them must not resolve to it
 
     # -- helpers
     def pick(self, xs):
@@ -278,12 +279,28 @@ class Gen:
     def chance(self, p):
         return self.rng.random() < p
 
+    def visible(self):
+        """name -> (type, kind); the innermost declaration wins"""
+        out = {}
+        for sc in self.scopes:
+            for (n, t, k) in sc:
+                out[n] = (t, k)
+        return out
+
     def locals_of(self, ty):
-        return [n for sc in self.scopes for (n, t, k) in sc if t == ty]
+        return [n for n, (t, k) in self.visible().items() if t == ty]
 
     def fresh(self):
         self.counter += 1
         return "v%d" % self.counter
+
+    def decl_name(self):
+        """a new name, or (one time in four) a name that is already visible: the declaration shadows it until its block ends"""
+        vis = list(self.visible())
+        if vis and self.chance(0.25):
+            self.features.add("shadow")
+            return self.pick(vis)
+        return self.fresh()
 
     def obj(self):
         r = self.rng.random()
@@ -493,7 +510,11 @@ class Gen:
         if r < 0.85:
             return ("call", ("member", ("ident", "console"), self.pick(["log", "debug", "info", "warn", "error"])),
                     [self.expr(self.pick(["int", "string", "bool"]), d + 1) for _ in range(self.rng.randrange(0, 3))])
-        ls = [(n, t) for sc in self.scopes for (n, t, k) in sc if k == "let"]
+        if self.leaked and self.chance(0.5):
+            n, t, k = self.pick(self.leaked)
+            self.features.add("out-of-scope-use")
+            return ("assign", ("member", self.obj(), PROP_OF[t]), ("ident", n))
+        ls = [(n, t) for n, (t, k) in self.visible().items() if k == "let"]
         if ls:
             n, t = self.pick(ls)
             return ("assign", ("ident", n), self.expr(t, d + 1))
@@ -503,7 +524,7 @@ class Gen:
     def decl(self, d):
         kind = self.pick(["let", "let", "const"])
         t = self.pick(["bool", "int", "uint", "double", "string", "mode", "vobj", "opts"])
-        name = self.fresh()
+        name = self.decl_name()
         annotated = self.chance(0.4)
         has_val = kind == "const" or self.chance(0.8) or not annotated
         if self.mutate and self.chance(self.mutate):
@@ -522,7 +543,7 @@ class Gen:
             out.append(self.stmt(d, ret_ty))
         if need_value:
             out.append(self.value_stmt(d, ret_ty))
-        self.scopes.pop()
+        self.leaked.extend(self.scopes.pop())
         return out
 
     def value_stmt(self, d, ret_ty):
